@@ -336,6 +336,30 @@ theorem taskMeaningF_sound (c : Nat) (b : CBody) (ρ : Env) (h : Sat ρ (b.raw c
       rw [sched2_eval]
       intro h1 h2
       simpa [Fml.eval, Fml.evalAny, Term.eval, Task.eVar, Task.sVar, Task.endV, Task.startV] using hm h1 h2
+  | contiguous ts =>
+      simp only [CBody.taskMeaningF, Option.some.injEq] at hf; subst hf
+      simp only [TaskMeaning] at hm
+      have hsv : ∀ x : Task, x.sVar.eval ρ = x.startV ρ := fun _ => rfl
+      have hev : ∀ x : Task, x.eVar.eval ρ = x.endV ρ := fun _ => rfl
+      simp only [Fml.eval]
+      intro hco
+      rw [evalAll_iff] at hco
+      have hco' : TasksComonotone ρ ts := by
+        intro x hx y hy hxy
+        have := hco _ (List.mem_flatMap.2 ⟨x, hx, List.mem_map.2 ⟨y, hy, rfl⟩⟩)
+        simp only [Fml.eval, hsv, hev] at this
+        exact this hxy
+      rw [evalAll_iff]
+      intro f hf'
+      obtain ⟨a, ha, hfa⟩ := List.mem_flatMap.1 hf'
+      obtain ⟨b, hb, rfl⟩ := List.mem_map.1 hfa
+      simp only [Fml.eval, Fml.evalAll, hsv, hev, Term.eval, numT, and_true]
+      rintro ⟨hab, hrest⟩ ⟨h1, h2⟩
+      rw [evalAll_iff] at hrest
+      refine ContiguousOK_pairwise ρ ts hm hco' a ha b hb hab ?_ h1 h2
+      intro c hc
+      have := hrest _ (List.mem_map.2 ⟨c, hc, rfl⟩)
+      simpa [Fml.eval, Fml.evalAll, hsv] using this
   | unorderedGroup ts window len =>
       simp only [CBody.taskMeaningF, Option.some.injEq] at hf; subst hf
       simp only [TaskMeaning] at hm
@@ -604,6 +628,75 @@ theorem periodicInterruptedF_sound (b : BusyRef) (t : Task) (ivs : List (Int × 
       · exact ⟨_, List.mem_cons_of_mem _ (List.mem_cons_self ..), by
           simp only [Fml.eval, Term.eval, numT, periodShift_eval, hs, he]; omega⟩
 
+theorem comonotoneF_eval (ρ : Env) (busy : List BusyRef) : (comonotoneF busy).eval ρ ↔ Comonotone ρ busy := by
+  unfold comonotoneF Comonotone
+  simp only [Fml.eval]; rw [evalAll_iff]
+  constructor
+  · intro h x hx y hy hxy
+    have := h _ (List.mem_flatMap.2 ⟨x, hx, List.mem_map.2 ⟨y, hy, rfl⟩⟩)
+    simp only [Fml.eval] at this
+    exact this hxy
+  · intro h a ha
+    obtain ⟨x, hx, hax⟩ := List.mem_flatMap.1 ha
+    obtain ⟨y, hy, rfl⟩ := List.mem_map.1 hax
+    simp only [Fml.eval]
+    exact h x hx y hy
+
+theorem succF_eval (ρ : Env) (busy : List BusyRef) (a b : BusyRef) :
+    (succF busy a b).eval ρ ↔ (a.sV ρ < b.sV ρ ∧ ∀ c ∈ busy, ¬ (a.sV ρ < c.sV ρ ∧ c.sV ρ < b.sV ρ)) := by
+  have hsv : ∀ x : BusyRef, x.s.eval ρ = x.sV ρ := fun _ => rfl
+  unfold succF
+  simp only [Fml.eval, Fml.evalAll]
+  rw [evalAll_iff]
+  constructor
+  · rintro ⟨h1, h2⟩
+    refine ⟨h1, ?_⟩
+    intro c hc
+    have := h2 _ (List.mem_map.2 ⟨c, hc, rfl⟩)
+    simpa [Fml.eval, Fml.evalAll, hsv] using this
+  · rintro ⟨h1, h2⟩
+    refine ⟨h1, ?_⟩
+    intro f hf
+    obtain ⟨c, hc, rfl⟩ := List.mem_map.1 hf
+    have := h2 c hc
+    simpa [Fml.eval, Fml.evalAll, hsv] using this
+
+theorem gapTwinF_sound (ρ : Env) (busy : List BusyRef) (P : Int → Int → Prop) (mk : Term → Term → Fml)
+    (hmk : ∀ a b : BusyRef, P (a.eV ρ) (b.sV ρ) → (mk a.e b.s).eval ρ) (h : GapsOK ρ busy P) :
+    (gapTwinF busy mk).eval ρ := by
+  unfold gapTwinF
+  simp only [Fml.eval]
+  intro hco
+  rw [comonotoneF_eval] at hco
+  rw [evalAll_iff]
+  intro f hf
+  obtain ⟨a, ha, hfa⟩ := List.mem_flatMap.1 hf
+  obtain ⟨b, hb, rfl⟩ := List.mem_map.1 hfa
+  simp only [Fml.eval]
+  intro hs
+  rw [succF_eval] at hs
+  exact hmk a b (GapsOK_pairwise ρ busy P h hco a ha b hb hs.1 hs.2)
+
+/-- the conditions of ResourceTasksDistance, read back -/
+theorem distConds_eval_iff (ivs : Option (List (Int × Int))) (e s : Term) (ρ : Env) :
+    Fml.evalAny ρ (distConds ivs e s) ↔ DistCond ivs (e.eval ρ) (s.eval ρ) := by
+  constructor
+  · intro h
+    rw [evalAny_iff] at h
+    obtain ⟨f, hf, hfe⟩ := h
+    unfold distConds at hf
+    unfold DistCond
+    cases ivs with
+    | none =>
+        simp only [List.mem_singleton] at hf; subst hf
+        simpa [Fml.eval, Fml.evalAll, Term.eval, numT] using hfe
+    | some l =>
+        simp only at hf ⊢
+        obtain ⟨iv, hiv, rfl⟩ := List.mem_map.1 hf
+        refine ⟨iv, hiv, ?_⟩
+        simpa [Fml.eval, Fml.evalAll, Term.eval, numT] using hfe
+  · exact distConds_eval ivs e s ρ
+
 theorem resMeaningF_sound (c : Nat) (b : CBody) (ρ : Env) (h : Sat ρ (b.raw c)) (f : Fml)
     (hf : b.resMeaningF = some f) : f.eval ρ := by
   have hm := C04_raw_sound c b ρ h
@@ -658,6 +751,30 @@ theorem resMeaningF_sound (c : Nat) (b : CBody) (ρ : Env) (h : Sat ρ (b.raw c)
             List.mem_append_left _ (List.mem_append_left _ (List.mem_cons_of_mem _ (List.mem_cons_self ..))), ?_⟩
           simp only [Fml.eval, Term.eval, numT, hs, he]
           omega
+  | nonDelay busy =>
+      simp only [CBody.resMeaningF, Option.some.injEq] at hf; subst hf
+      simp only [ResMeaning] at hm
+      apply gapTwinF_sound ρ busy _ _ _ hm
+      intro a b hP
+      have hs : b.s.eval ρ = b.sV ρ := rfl
+      have he : a.e.eval ρ = a.eV ρ := rfl
+      simp only [Fml.eval, Fml.evalAll, Term.eval, numT, hs, he, and_true]
+      intro hh
+      exact hP hh.1 hh.2
+  | distance busy d ivs mode =>
+      simp only [CBody.resMeaningF, Option.some.injEq] at hf; subst hf
+      simp only [ResMeaning] at hm
+      apply gapTwinF_sound ρ busy _ _ _ hm
+      intro a b hP
+      have hs : b.s.eval ρ = b.sV ρ := rfl
+      have he : a.e.eval ρ = a.eV ρ := rfl
+      unfold distanceGap
+      simp only [Fml.eval]
+      intro hc
+      rw [distConds_eval_iff, hs, he] at hc
+      have := hP hc
+      rw [cmpRel_eval]
+      simpa [Term.eval, numT, hs, he] using this
   | interrupted ws ivs =>
       simp only [CBody.resMeaningF] at hf
       split at hf
